@@ -79,7 +79,8 @@ ASSUMPTIONS = [
     "fields by inverting the top-node update; vacuum windows before / around / after nucleation",
     "vial geometries off the default aspect ratio; tall narrow vials (H > D) only in the thorough tier (cost)",
 ]
-RULE = ("2D runs (shelf / VISF / jacket) and 1D runs (shelf / VISF) on vials off the default aspect ratio with "
+RULE = ("histories (jacket runs sharing one heat-transfer dict with other air gaps / s0, configPath re-pointed on one "
+        "object; the balance is taken against the run's OWN K_wall) and 2D runs (shelf / VISF / jacket) and 1D runs (shelf / VISF) on vials off the default aspect ratio with "
         "K_shelf 500-2000, fast programs, air gaps 1e-5..1e-3, a fixed list plus random ones; a case is non-trivial "
         "when the run completes (nucleation and solidification) with every step recorded")
 EXPLANATION = ("Lean theorems over the reals for the exact parts (1D cooling stage, nucleation jump, jacket ghost "
@@ -111,16 +112,33 @@ LEVEL_TEXT = ("PARTIAL proof. Lean 4 theorems (exact reals) about the executable
 def cases(rng, tier):
     for c in u.standard_cases(tier, core.env_seed()):
         yield c
+    # object / dict histories: the balance of a run is evaluated against the run's OWN coefficients
+    a = u._base("jacket", 0.015, 0.03, 1000, 350, jacket=dict(air_gap=1e-3, lambda_air=0.025))
+    b = u._base("jacket", 0.015, 0.03, 1000, 350, jacket=dict(air_gap=1e-5, lambda_air=0.025))
+    yield dict(b, kind="shared_k", before=[a])          # two jacket runs sharing one k dict, other air gap
+    if tier != "quick":
+        yield dict(b, kind="repoint", before=a)          # one object, configPath re-pointed to another air gap
+        c = u._base("jacket", 0.015, 0.03, 500, 450, jacket=dict(air_gap=1e-4, lambda_air=0.025))
+        yield dict(c, kind="shared_k", before=[a, b])    # ... and another s0
+
+
+def _own(case):
+    return {k: v for k, v in case.items() if k not in ("kind", "before", "_corpus")}
 
 
 def run_impl(case):
+    kind = case.get("kind")
+    if kind == "shared_k":
+        return u.summarize(_own(case), u.run_shared_k(list(case["before"]) + [_own(case)]))
+    if kind == "repoint":
+        return u.summarize(_own(case), u.run_repoint(case["before"], _own(case)))
     return u.observe(case)
 
 
 def run_model(drv, case):
     if case["dim"] != "spatial_2D":
         return {"skip": True}
-    return u.run_model(drv, case)
+    return u.run_model(drv, _own(case))
 
 
 def compare(case, impl, model):
@@ -130,7 +148,8 @@ def compare(case, impl, model):
 
 
 def _site(case):
-    return "_run_2D" if case["dim"] == "spatial_2D" else "_run_1D"
+    site = "_run_2D" if case["dim"] == "spatial_2D" else "_run_1D"
+    return site + ("@" + case["kind"] if case.get("kind") else "")
 
 
 def predicates(case, impl):
@@ -173,6 +192,8 @@ def predicates(case, impl):
 
 
 def classify(case, impl):
+    if case.get("kind"):
+        return [f"kind={case['kind']}", f"config={case['config']}"] + (["raise=" + impl["raise"]] if impl.get("raise") else [])
     tags = [f"dim={case['dim']}", f"config={case['config']}", f"H/D={case['height'] / case['diameter']:.2f}"]
     if impl.get("raise"):
         tags.append("raise=" + impl["raise"])
